@@ -264,6 +264,9 @@ class SheetGen:
         n = len(self.rows)
         if t == "send_message":
             row["message_text"] = f"msg {n}"
+            if rng.random() < 0.06:
+                # a LONG message (beyond every limit the tool knows for other kinds of text): still one message
+                row["message_text"] = f"msg {n} " + " ".join(rng.choice(WORDS) or "w" for _ in range(rng.randint(140, 260)))
             if rng.random() < 0.3:
                 row["choices"] = rng.choice(["a;b", "Yes;No;Maybe", "one"])
             if rng.random() < 0.15:
